@@ -1,4 +1,5 @@
-// C06: P and Q agree with an independent reference (boost) to 1e-12 for a <= 100, on both sides of the switch-over x = a + 1.
+// C06: P and Q agree with an independent reference (boost) to 1e-12 for a <= 100, on both sides of the switch-over x = a + 1,
+// and to 1e-3 (absolute) for a > 100 up to 1e4, across the bulk of the distribution and both sides of a = 100.
 #include "harness.hpp"
 #include "libphysica/Special_Functions.hpp"
 #include <boost/math/special_functions/gamma.hpp>
@@ -15,7 +16,17 @@ int main()
 		worst = std::max(worst, std::max(dp, dq));
 		if(dp > 1e-12 || dq > 1e-12) { if(bad < 8) printf("OBSERVED a=%g x=%g: |P - ref| = %.3g, |Q - ref| = %.3g  ** VIOLATES the property **\n", a, x, dp, dq); bad++; }
 	}
-	printf("OBSERVED %d points, worst deviation %.3g\n", n, worst);
+	printf("OBSERVED %d points with a <= 100, worst deviation %.3g\n", n, worst);
+	double big[] = {100.5, 101.0, 120.0, 150.0, 300.0, 1000.0, 5000.0, 10000.0};
+	double worst_big = 0; int nb = 0;
+	for(double a : big) for(double t = -40.0; t <= 40.0; t += 1.0)
+	{
+		double x = a + 1.0 + t * std::sqrt(a) / 4.0; if(x <= 0) continue; nb++;
+		double dp = std::fabs(GammaP(x, a) - boost::math::gamma_p(a, x)), dq = std::fabs(GammaQ(x, a) - boost::math::gamma_q(a, x));
+		worst_big = std::max(worst_big, std::max(dp, dq));
+		if(dp > 1e-3 || dq > 1e-3) { if(bad < 8) printf("OBSERVED a=%g x=%g: |P - ref| = %.3g, |Q - ref| = %.3g (allowed 1e-3)  ** VIOLATES the property **\n", a, x, dp, dq); bad++; }
+	}
+	printf("OBSERVED %d points with a > 100, worst deviation %.3g\n", nb, worst_big);
 	printf(bad ? "REPRODUCED %d\n" : "NOT-REPRODUCED\n", bad);
 	return 0;
 }
